@@ -282,20 +282,27 @@ def run_family(exe, family, args=(), seed=1, tier="quick", timeout=900, extra_en
 
 
 def library_panic(stderr):
-    """If the harness process died of a Go panic raised on a goroutine whose first non-runtime frame is in the library
-    (not in the harness), return the panic line; else None."""
+    """If the harness process died of a Go panic / runtime fatal error raised on a goroutine whose innermost frame outside
+    the Go runtime and standard library is in the library (not in the harness), return the panic line; else None."""
     lines = stderr.splitlines()
     for i, l in enumerate(lines):
         if l.startswith("panic: ") or l.startswith("fatal error: "):
-            for f in lines[i + 1:i + 40]:
+            started = False
+            for f in lines[i + 1:i + 80]:
                 f = f.strip()
-                if not f or f.startswith(("goroutine ", "[signal", "/")):
+                if f.startswith("goroutine "):
+                    if started:
+                        break
+                    started = True
                     continue
-                if f.startswith(("runtime.", "panic(", "reflect.", "sync.", "created by runtime")):
+                if not f or f.startswith(("[signal", "/", "\t")):
                     continue
                 if f.startswith("github.com/filecoin-project/go-jsonrpc"):
                     return l[:300]
-                return None
+                if f.startswith(("main.", "verifharness", "created by main.")):
+                    return None
+                # runtime, standard library, third-party frames: keep walking outwards
+            return None
     return None
 
 
